@@ -261,7 +261,7 @@ PROPS = {
                   "and line attribution; second reference = quandary's stream parser on the textual flattening",
         rule="trees of 1-6 files in ./, sub/, sub/deeper/, other/ (each file included once, relative paths with ../, quoted or "
              "not), directive origins present/absent, $TTL lines and blank-owner / omitted-TTL / omitted-class records right "
-             "after an include, depth limits 0-4 around the depth the tree needs. distinct = (files, depth needed, limit, too deep); a quarter of the root files have no $ORIGIN at all (absolute names only), and half of the returns from an include into such a file are followed by a relative-owner or @ line that must end the parse with an error",
+             "after an include, depth limits 0-4 around the depth the tree needs. distinct = (files, depth needed, limit, too deep); a quarter of the root files have no $ORIGIN at all (absolute names only), and half of the returns from an include into such a file are followed by a relative-owner or @ line that must end the parse with an error; half of the cases change into the tree (mostly into the root file's own directory) and open the root file by a relative path (bare, './', 'other/../')",
         assumptions=COMMON_ASSUMPTIONS + ["files are written under /verif/work (removed afterwards)", "IN WKS values are not compared here (known finding of C23)"],
         quick=plans(dict(build="dbg", nshards=16)),
         thorough=plans(dict(build="dbg", nshards=16), dict(build="rel", nshards=16), dict(build="asan", nshards=16, scale=0.2)),
@@ -275,7 +275,7 @@ PROPS = {
              "rate in {1,2,3,7,100,10^6,2^31}, window in {1,2,15,60,4000} with rate*window < 2^32, slip in {0,1,2,5}; 5-400 "
              "steps with gaps from {0 (bursts), 1, 2, window, window+-1, ceil(2^32/rate)+-1, 10^5, 10^9, 3 years, 2^32, "
              "2^32+1, 0-9}; evaluations = steps judged; histories whose real duration reached 0.5 s are discarded "
-             "(inconclusive, counted). distinct = (rate, window, slip, category, number of limited steps) classes",
+             "(inconclusive, counted). distinct = (rate, window, slip, category, number of limited steps) classes; plus three real-time histories per shard that check the carry-over of the unused fraction of a second between refills (rate 1, window 3; judged only when the measured times leave no doubt about the whole seconds)",
         assumptions=COMMON_ASSUMPTIONS + [
             "shifts are whole seconds and the limiter keeps the sub-second remainder, so the reference is exact as long as the "
             "real duration of a history stays below one second; histories taking >= 0.5 s are discarded",
@@ -291,7 +291,7 @@ PROPS = {
         rule="prefix lengths v4 in {0,1,8,16,24,31,32}, v6 in {0,1,48,56,63,64}; table sizes {1,7,1024,65537}; slip 0/1; second "
              "request derived from the first: same or one bit flipped at/inside/outside the prefix boundary, IPv4 vs mapped "
              "IPv6, case variants, two names under one wildcard / under different wildcards, NODATA vs answer, NXDOMAIN vs "
-             "REFUSED vs FORMERR, TCP, NOTIFY/UPDATE/STATUS opcodes. distinct = (relation, limited, category, prefixes, wildcard); an eighth of the requests carry an OPT with EDNS version 1 (BADVERS, whose low four RCODE bits equal NOERROR: it belongs to the per-prefix stream of all other RCODEs); sources include IPv6 addresses in ::/96 (the IPv4-compatible spelling of the IPv4 addresses in play), which are IPv6 sources, not IPv4-mapped ones",
+             "REFUSED vs FORMERR, TCP, NOTIFY/UPDATE/STATUS opcodes. distinct = (relation, limited, category, prefixes, wildcard); an eighth of the requests carry an OPT with EDNS version 1 (BADVERS, whose low four RCODE bits equal NOERROR: it belongs to the per-prefix stream of all other RCODEs); sources include IPv6 addresses in ::/96 (the IPv4-compatible spelling of the IPv4 addresses in play), which are IPv6 sources, not IPv4-mapped ones; a quarter of the servers keep the default prefix lengths (/24, /56) without the setters being called",
         assumptions=COMMON_ASSUMPTIONS + ["pairs taking >= 0.5 s of real time are discarded", "a 2^-32 QNAME-hash collision would be a false alarm"],
         quick=plans(dict(build="dbg", nshards=16)),
         thorough=plans(dict(build="dbg", nshards=16), dict(build="rel", nshards=16)),
@@ -302,7 +302,7 @@ PROPS = {
                   "real OS threads released by a barrier; ThreadSanitizer and Miri (data-race detection) builds of the same workload",
         rule="T in {2,4,8,16} threads (2-3 under Miri), capacity in {1,5,50,1000} as rate*1 or (rate/5)*5, N from below the "
              "capacity to 20x, yield_now after every / every 7th / no call; bursts that took >= 0.5 s are discarded. The "
-             "monitor records how many calls were in flight at once (max_overlap_observed); distinct = (T, capacity, N/capacity, overlap)",
+             "monitor records how many calls were in flight at once (max_overlap_observed); distinct = (T, capacity, N/capacity, overlap); half of the bursts against multi-second windows first fill the bucket sequentially, advance the virtual clock by k < window seconds and then expect exactly rate x k responses from the concurrent burst; threads leave a spinning start line within nanoseconds of one another",
         assumptions=COMMON_ASSUMPTIONS + ["a burst is judged only if it finished within 0.5 s of real time (otherwise a refill is legitimate)"],
         quick=plans(dict(build="dbg", nshards=16, parallel=4), dict(build="miri", nshards=4, timeout=900)),
         thorough=plans(dict(build="dbg", nshards=16, parallel=4), dict(build="rel", nshards=16, parallel=4),
@@ -320,7 +320,7 @@ PROPS = {
              "ThreadGroup::shut_down in 1/3, shutdown racing the submitters in 1/3, one submission after await returned. "
              "Checked: accepted => exactly one start; rejected => none; all accepted tasks ended before await_shutdown "
              "returned; submissions after shut_down returned are rejected; no task event after await returned. "
-             "distinct = (configuration, failpoint policy, order of event kinds) = distinct interleavings observed",
+             "distinct = (configuration, failpoint policy, order of event kinds) = distinct interleavings observed; 0-3 further threads block in await_shutdown before shutdown begins and must all be released",
         assumptions=COMMON_ASSUMPTIONS + [
             "delays are injected only where a thread can really be pre-empted (inside a critical section a delay only widens a window that exists anyway)",
             "native deadlock verdict: a history that does not finish in 20 s is a violation only if the process is quiescent "
@@ -341,7 +341,7 @@ PROPS = {
              "failpoint mode 0 (none), 1 (catalog swap inside every third request right after the snapshot / before dispatch), "
              "2 (key-set swap before dispatch). evaluations = responses judged; evidence: responses overlapping a swap, "
              "in-request swaps, signed answers verified, BADKEY responses, failpoint hit counts. distinct = (readers, failpoint "
-             "mode, generations published, overlap seen, signed ok seen, BADKEY seen)",
+             "mode, generations published, overlap seen, signed ok seen, BADKEY seen); catalog swaps and key-set swaps are ordered separately, and in half of the histories a second thread rolls keys over while the first swaps catalogs (the two setters run concurrently)",
         assumptions=COMMON_ASSUMPTIONS + ["freshness is judged with logical clocks only (no wall-clock): a response generation g must satisfy published-before <= g <= started-after"],
         quick=plans(dict(build="dbg", nshards=16, parallel=4), dict(build="miri", nshards=2, timeout=900)),
         thorough=plans(dict(build="dbg", nshards=16, parallel=4), dict(build="rel", nshards=16, parallel=4),
@@ -360,7 +360,7 @@ PROPS = {
              "octet / 1-3 octets / 1-700 octets per segment with delays up to 50 ms (read timeout is 5 s). UDP batch: 1-3 "
              "client sockets x 1-6 datagrams with unique IDs; every datagram received must come from the server address, match "
              "an outstanding ID once, equal the reference response and fit the payload size; missing datagrams are not "
-             "violations. distinct = (provider, batch shape) classes; a fourteenth of the TCP requests are padded to 65535 / 65534 / 65533 / 65532 / 32768 / 16384 / 16383 / 4096 octets. Known finding (open): when the server closes after a response-less request while further client octets are unread, whole earlier responses may be lost to the reset; that exact shape is reported as KNOWN-FINDING, every other difference as a violation; batches with boundary-length requests are written in segments of 4 000-30 000 octets, and a batch whose writing took more than 4 s is not judged (the statement's premise is arrival within the 5 s read timeout)",
+             "violations. distinct = (provider, batch shape) classes; a fourteenth of the TCP requests are padded to 65535 / 65534 / 65533 / 65532 / 32768 / 16384 / 16383 / 4096 octets. Known finding (open): when the server closes after a response-less request while further client octets are unread, whole earlier responses may be lost to the reset; that exact shape is reported as KNOWN-FINDING, every other difference as a violation; batches with boundary-length requests are written in segments of 4 000-30 000 octets, and a batch whose writing took more than 4 s is not judged (the statement's premise is arrival within the 5 s read timeout); each shard runs one slow client per provider: request 1 in two segments 3.2 s apart, 2.5 s idle, request 2 (each message has its own 5 s allowance)",
         assumptions=COMMON_ASSUMPTIONS + [
             "timeouts of the harness (connect 5 s, read 8 s) make a batch inconclusive, never violated",
             "nightly builds (ASan/TSan) exclude the Tokio provider: proc-macro2 1.0.51 does not compile on the nightly toolchain"],
